@@ -276,6 +276,11 @@ pub fn build(spec: &Spec) -> (Vec<u8>, Vec<Gt>, Vec<u32>) {
     let c_oneplus = pattern(2, cs + 1);
     let c_three = pattern(3, 3 * cs);
     add_sfn(&mut root, &mut gt, "/", b"EMPTY   BIN", 0x20, 0, tn(27), 0, 0, vec![], None);
+    // the empty file carries the foreign handle in bytes 20..21 as well (FAT12/16)
+    if width != 32 {
+        let l = root.len() - 1;
+        root[l][20] = 0x07;
+    }
     add_sfn(&mut root, &mut gt, "/", b"ONE     BIN", 0x20, 0, tn(28), one[0], cs as u32, c_one.clone(), None);
     add_sfn(&mut root, &mut gt, "/", b"ONEPLUS BIN", 0x20, 0, tn(29), oneplus[0], cs as u32 + 1, c_oneplus.clone(), None);
     add_sfn(&mut root, &mut gt, "/", b"THREE   BIN", 0x21, 0x18, tn(30), three[0], 3 * cs as u32, c_three.clone(), None);
@@ -307,8 +312,19 @@ pub fn build(spec: &Spec) -> (Vec<u8>, Vec<Gt>, Vec<u32>) {
         keep.push(last);
     }
     b.ballast(&keep);
+    // the free space of a foreign volume is never zero: stale directory-like junk in every free cluster
+    {
+        let junk: Vec<u8> = (0..cs).map(|i| if i % 32 == 0 { b'J' } else if i % 32 == 11 { 0x20 } else { 0x41 + (i % 23) as u8 }).collect();
+        for c in &keep {
+            b.write_cluster(*c, &junk);
+        }
+    }
     b.scribble_inactive();
-    b.set_fsinfo(if spec.count_unknown { 0xFFFF_FFFF } else { keep.len() as u32 }, 0xFFFF_FFFF);
+    // a volume that was not unmounted cleanly carries a stale count (here 0) which has to be ignored
+    let stale = spec.dirty;
+    // other systems leave a next-free hint; it may point above every free cluster (here: the last cluster)
+    let hint = if spec.eoc_high { last } else { 0xFFFF_FFFF };
+    b.set_fsinfo(if spec.count_unknown { 0xFFFF_FFFF } else if stale { 0 } else { keep.len() as u32 }, hint);
     (b.finish(), gt, keep)
 }
 
@@ -440,6 +456,10 @@ pub struct Mutation {
 }
 
 pub fn mutations() -> Vec<Mutation> {
+    mutations_all()
+}
+
+fn mutations_all() -> Vec<Mutation> {
     vec![
         Mutation { name: "create-file-in-root", targets: vec![], dirs: vec!["/"] },
         Mutation { name: "create-file-in-subdir", targets: vec![], dirs: vec!["/Nested Dir/level2"] },
@@ -451,6 +471,8 @@ pub fn mutations() -> Vec<Mutation> {
         Mutation { name: "rename-within-dir", targets: vec!["/lower.txt"], dirs: vec!["/"] },
         Mutation { name: "move-across-dirs", targets: vec!["/UPPER.txt"], dirs: vec!["/Nested Dir"] },
         Mutation { name: "set-timestamps", targets: vec!["/PLAIN.TXT"], dirs: vec![] },
+        Mutation { name: "create-dir-in-subdir", targets: vec![], dirs: vec!["/Nested Dir"] },
+        Mutation { name: "write-into-empty-file", targets: vec!["/EMPTY.BIN"], dirs: vec![] },
         // write until the (foreign, zero-padded) volume is full: must stop with NotEnoughSpace with every cluster used
         Mutation { name: "fill-volume", targets: vec![], dirs: vec!["/"] },
     ]
@@ -482,6 +504,13 @@ fn apply(fs: &sess::Fs, m: &Mutation, cs: usize) -> Result<(), String> {
             let mut f = root.open_file("THREE.BIN").map_err(e)?;
             f.seek(SeekFrom::Start(cs as u64)).map_err(e)?;
             f.truncate().map_err(e)?;
+        }
+        "write-into-empty-file" => {
+            let mut f = root.open_file("empty.bin").map_err(e)?;
+            f.write_all(b"first bytes").map_err(e)?;
+        }
+        "create-dir-in-subdir" => {
+            root.create_dir("Nested Dir/New Dir").map_err(e)?;
         }
         "remove-file" => root.remove("one.bin").map_err(e)?,
         "remove-empty-dir" => root.remove("emptydir").map_err(e)?,
@@ -694,7 +723,8 @@ fn write_phase(cfg: &Cfg, gt: &[Gt], m: &Mutation, cs: usize) -> Vec<(String, St
     let mut v = diff_confined(&pre_dev, &post_dev, &pre, &post, m);
     // the target's own entry: a data / size / timestamp change must not touch its name bytes, case flags,
     // attributes (and, unless timestamps were set, its creation stamp)
-    if matches!(m.name, "append-cluster-to-fragmented-file" | "overwrite-in-place" | "truncate-at-cluster-size" | "set-timestamps") {
+    let ea = pre.geo.width != 32;
+    if matches!(m.name, "append-cluster-to-fragmented-file" | "overwrite-in-place" | "truncate-at-cluster-size" | "set-timestamps" | "write-into-empty-file") {
         for t in &m.targets {
             let find = |d: &Decoded| -> Option<[u8; 32]> {
                 for dir in &d.dirs {
@@ -710,6 +740,9 @@ fn write_phase(cfg: &Cfg, gt: &[Gt], m: &Mutation, cs: usize) -> Vec<(String, St
             match (find(&pre), find(&post)) {
                 (Some(a), Some(b)) => {
                     let may_change = |i: usize| -> bool {
+                        if ea && matches!(i, 20..=21) {
+                            return false;
+                        }
                         matches!(i, 18..=19 | 20..=21 | 22..=25 | 26..=27 | 28..=31) || (m.name == "set-timestamps" && matches!(i, 13..=17))
                     };
                     for i in 0..32 {
@@ -718,6 +751,7 @@ fn write_phase(cfg: &Cfg, gt: &[Gt], m: &Mutation, cs: usize) -> Vec<(String, St
                                 0..=10 => "short-name",
                                 11 => "attributes",
                                 12 => "case-flags",
+                                20..=21 => "fat12-16-bytes-20-21",
                                 _ => "creation-stamp",
                             };
                             v.push((format!("C08/write/{}/target-entry-{field}-changed", m.name), format!("{t}: byte {i} of its directory entry changed {:#04x} -> {:#04x}", a[i], b[i])));
@@ -845,7 +879,7 @@ pub fn run(tier: &str) -> i32 {
         "volumes_skipped_by_deadline": ncap,
         "mutations_per_volume": muts.iter().map(|m| m.name).collect::<Vec<_>>(),
         "explanation": "states = foreign volumes in the (tier's) product grid, each an initial state built by the independent builder with its ground truth; transitions = 1 read session + 10 single mutations from every initial state (depth-1 exploration), all executed on the real crate; read: names, short names, UCS-2 units, attributes, raw timestamps, sizes, contents and label vs the builder's ground truth; write: byte-level diff against the pre-image confined to the target's slots / free slots / its FAT entries and clusters / clusters free before / status byte / fs-info, no new structural finding, every other file intact",
-        "grid": "width {12,16,32} x (sector,cluster) {512x1, 512x8, 4096x1, 4096x8 (FAT12); 512x1, 512x8, 4096x1 (FAT16); 512x1 (FAT32)} x FAT copies {1,2,3} x (FAT32: mirrored / mirrored with a stale active-copy number / each active copy, inactive copies scribbled) x FAT32 top nibble {0,0xA} x end-of-chain {lowest,highest} x chain layout {contiguous,reversed,interleaved,through-last-cluster} x FAT32 free count {stored, unknown} x status {clean,dirty}; FAT32 volumes have 66 600 clusters (cluster numbers above 0xFFFF in the through-last-cluster layout), with 3 FAT copies the information / backup sectors sit at 2 / 9, the live label carries attribute 0x28 in the odd layouts; statistics compared with the generator; 11 mutations incl. writing until the volume is full; quick tier = a quarter of the grid",
+        "grid": "width {12,16,32} x (sector,cluster) {512x1, 512x8, 4096x1, 4096x8 (FAT12); 512x1, 512x8, 4096x1 (FAT16); 512x1 (FAT32)} x FAT copies {1,2,3} x (FAT32: mirrored / mirrored with a stale active-copy number / each active copy, inactive copies scribbled) x FAT32 top nibble {0,0xA} x end-of-chain {lowest,highest} x chain layout {contiguous,reversed,interleaved,through-last-cluster} x FAT32 free count {stored, unknown} x status {clean,dirty}; FAT32 volumes have 66 600 clusters (cluster numbers above 0xFFFF in the through-last-cluster layout), with 3 FAT copies the information / backup sectors sit at 2 / 9, the live label carries attribute 0x28 in the odd layouts; statistics compared with the generator; 13 mutations incl. a new directory, a first write into an empty file and writing until the volume is full; free clusters hold directory-like junk, dirty volumes carry a stale free count, half the FAT32 volumes a next-free hint on the last cluster; quick tier = a quarter of the grid",
         "technique": "exhaustive product grid of builder-made foreign volumes as initial states, depth-1 exploration on the real crate, independent decoder + byte-level diff oracle",
     });
     rep.assumptions = vec!["cluster sizes / copy counts outside the grid are not covered; FAT32 with large clusters is left out because the builder keeps flat images in memory".into()];
